@@ -1,3 +1,4 @@
+import MiniconfVerif.Lemmas.GenTieImpls
 import MiniconfVerif.Lemmas.GenTie
 import MiniconfVerif.Lemmas.WalkStruct
 import MiniconfVerif.Lemmas.Factor
@@ -140,5 +141,16 @@ theorem source_bookkeeping_is_model :
         if i < lk.len then .ok (lk.name? i) else .error (.NotFound 1)) ∧
     (∀ lk : Lookup, 0 < lk.len → (lookupToGen lk).len = .val lk.len) :=
   ⟨fun t => ⟨increment_tie t, depth_tie t⟩, increment_result_tie, try_from_tie, lookup_tie, len_tie⟩
+
+
+open MiniconfVerif.GenTie in
+/-- `TreeKey::traverse_by_key` of every built-in container **as translated from impls.rs** (`Gen/Impls.lean`: the
+`impl_tuple!` body expanded for the arities 1–8, `[T; N]`, `Result`, `Bound`, `Range`, `RangeInclusive`, `RangeFrom`,
+`RangeTo`; key source, callback and children's traversals as parameters) is the model's `Schema.traverse` at the
+node that the generator's schema reading assigns to that type — lookup (names / `numbered n` / `homog n`),
+children and their order, callback arguments `(index, name, len)`, `Inner(1)` on callback failure, one
+`increment` on the way up.  The transparent wrappers (`Option`, `Cell`, `RefCell`, `Box`, `Rc`, `Arc`, both `Weak`s,
+`Cow`, `Mutex`, `RwLock`, `&T`, `&mut T`) are checked by the translator to be the plain delegation to `T`. -/
+theorem source_containers_are_model : ContainerTies := containerTies
 
 end MiniconfVerif.C02
